@@ -11,8 +11,7 @@ Target Go types are described by `ATy` (what `reflect` tells `parseField`), stru
   `Marshal` itself produces for the parsed value (true DER for the target type). It is the explicit
   `Canon` predicate of the round-trip theorem `marshal_parse` (CTV/Props/C10.lean).
 
-`time.Time` and `interface{}` targets are not in `ATy` (first iteration; they are covered by the
-differential part of the C10 harness only).
+`time.Time` and `interface{}` targets are in `ATy` too (`Canon` has no `interface{}` targets).
 -/
 namespace CTV.Der
 
